@@ -1057,7 +1057,7 @@ class Run:
     _stage_n = 0
 
     ITER_SOURCES = {"iter", "iter_mut", "into_iter", "chars", "bytes", "char_indices", "rev", "enumerate", "chain", "drain", "values", "keys", "lines", "split", "skip", "take", "zip",
-                    "filter", "map", "filter_map", "cloned", "copied", "peekable", "windows", "chunks"}
+                    "filter", "map", "filter_map", "cloned", "copied", "peekable", "windows", "chunks", "take_while", "skip_while", "inspect"}
 
     def _iterish(self, ex):
         """is the receiver syntactically an iterator (a chain that starts at .iter() / .chars() / ...)"""
@@ -1066,7 +1066,7 @@ class Run:
     def _peel_stages(self, ex):
         """`SRC.filter(c).map(f).filter_map(g)` -> (SRC, [(kind, closure ast)...]) for the adaptors given as closure literals"""
         stages = []
-        while ex.get("k") == "MethodCall" and ex["m"] in ("filter", "map", "filter_map", "inspect") and len(ex["args"]) == 1 and ex["args"][0].get("k") == "Closure" \
+        while ex.get("k") == "MethodCall" and ex["m"] in ("filter", "map", "filter_map", "inspect", "take_while") and len(ex["args"]) == 1 and ex["args"][0].get("k") == "Closure" \
                 and len(ex["args"][0].get("params", [])) == 1:
             stages.insert(0, (ex["m"], ex["args"][0]))
             ex = ex["recv"]
@@ -1090,6 +1090,9 @@ class Run:
             call = {"k": "Call", "f": path(fn), "args": [path(cur)]}
             if kind == "filter":
                 stmts.append({"k": "ExprStmt", "e": {"k": "If", "cond": {"k": "Unary", "op": "!", "e": call}, "then": cont["body"], "else": None}, "semi": False})
+            elif kind == "take_while":
+                brk = [{"k": "ExprStmt", "e": {"k": "Break", "label": None, "e": None}, "semi": True}]
+                stmts.append({"k": "ExprStmt", "e": {"k": "If", "cond": {"k": "Unary", "op": "!", "e": call}, "then": brk, "else": None}, "semi": False})
             elif kind == "inspect":
                 stmts.append({"k": "ExprStmt", "e": call, "semi": True})
             elif kind == "map":
@@ -1516,6 +1519,44 @@ class Run:
                 if m in ("find_map", "find"):
                     self.varfam["__last_terminal"] = "Option"
                 return r
+        if ((m == "fold" and len(e["args"]) == 2 and e["args"][1].get("k") == "Closure" and len(e["args"][1].get("params", [])) == 2) or (m == "count" and not e["args"])) \
+                and self.cfg.generic_loops and e["recv"].get("k") == "MethodCall" and self._iterish(e["recv"]):
+            # `SRC.fold(init, |acc, x| f)` is `{ let mut acc = init; for x in SRC { acc = f }; acc }`; count() adds one per item
+            def path(n):
+                return {"k": "Path", "path": n, "generics": None, "qself": None}
+
+            def ident(n, mut=False):
+                return {"k": "PIdent", "name": n, "sub": None, "byref": False, "mut": mut}
+            src, stages = self._peel_stages(e["recv"])
+            if m == "count" and not any(kind == "take_while" for kind, _ in stages):
+                stages = None  # a plain `.filter(..).count()` stays the pure expression it is
+        else:
+            stages = None
+        if stages is not None:
+            def path(n):
+                return {"k": "Path", "path": n, "generics": None, "qself": None}
+
+            def ident(n, mut=False):
+                return {"k": "PIdent", "name": n, "sub": None, "byref": False, "mut": mut}
+            Run._stage_n += 1
+            k = Run._stage_n
+            first, acc, fn = "__it%d" % k, "__acc%d" % k, "__fold%d" % k
+            env2 = dict(env)
+            stmts, last = self._stage_stmts(stages, env2, first)
+            if m == "fold":
+                env2[fn] = self.eval(e["args"][1], env2)
+                step = {"k": "ExprStmt", "e": {"k": "Assign", "lhs": path(acc), "rhs": {"k": "Call", "f": path(fn), "args": [path(acc), path(last)]}}, "semi": True}
+                init = e["args"][0]
+            else:
+                step = {"k": "ExprStmt", "e": {"k": "Binary", "op": "+=", "l": path(acc), "r": {"k": "Lit", "t": "int", "v": 1, "suffix": ""}}, "semi": True}
+                init = {"k": "Lit", "t": "int", "v": 0, "suffix": ""}
+            loop = {"k": "For", "pat": ident(first), "iter": src, "body": stmts + [step], "label": None}
+            blk = [{"k": "Let", "pat": ident(acc, True), "init": init, "else": None}, {"k": "ExprStmt", "e": loop, "semi": True}, {"k": "ExprStmt", "e": path(acc), "semi": False}]
+            r = self.block(blk, env2)
+            for k2 in list(env.keys()):
+                if k2 in env2:
+                    env[k2] = env2[k2]
+            return r
         if m == "collect" and not e["args"] and self.cfg.generic_loops and e["recv"].get("k") == "MethodCall":
             src, stages = self._peel_stages(e["recv"])
             if stages:
